@@ -2,7 +2,7 @@
 
    Mirrors, function by function:
      join/parse.rs                      DEFAULT_GROUP_DETERMINERS, DEFERRED_DETERMINER, WRAPPER_DETERMINER,
-                                        `impl Parse for JoinInputDefault` (4-pass option loop, handler/branch loop)
+                                        `impl Parse for JoinInputDefault` (option loop, handler/branch loop)
      chain/group/group_determiner.rs    check_input (peek/peek2/peek3 / fork+skip), check_parsed, erase_input
      parse/utils.rs                     parse_until
      chain/expr/macros.rs               parse_n_or_empty_unit_fn_body   (the unit parsers per arity)
@@ -11,7 +11,7 @@
      handler.rs                         peek_handler, Handler::try_from
 
    `syn`'s Rust grammar is NOT modelled: it enters only through the record `oracle` below, which is an
-   argument of every function (never an Axiom/Parameter).  No proofs in this file (see proofs/ParseProps.v).
+   argument of every function (it is never declared as an assumption).  No proofs in this file (see proofs/ParseProps.v).
 
    Out of scope (documented in proofs/PARSE_NOTES.md): None-delimited groups (`TG DNone`), which `syn`'s cursor
    enters transparently; they cannot be produced by lexing macro input text.  Error message texts and spans. *)
@@ -176,19 +176,12 @@ Fixpoint find_from (ds : list determiner) (i : nat) (ts : list tt) : option (nat
   | d :: ds' => if d_check d ts then Some (i, d) else find_from ds' (S i) ts
   end.
 
-(* parse_until keeps ONE `group_determiners.cycle()` iterator for the whole call and searches it with
-   `.take(group_count).find(..)`: a search that stops at table index i leaves the iterator at i+1, and the
-   next search starts THERE (wrapping around).  `off` is the index the next search starts at. *)
-Definition find_rot (off : nat) (ts : list tt) : option (nat * determiner) :=
-  match find_from (skipn off determiners) off ts with
-  | Some r => Some r
-  | None => find_from (firstn off determiners) 0 ts
-  end.
-Definition next_off (i : nat) : nat := if Nat.eqb (S i) n_determiners then 0 else S i.
+(* parse_until searches the table in its declared order at EVERY position (`group_determiners.clone().find(..)`,
+   /repo commit 582ee80; the pinned code kept one cycling iterator per call - see module Pinned at the end). *)
+Definition find_first (ts : list tt) : option (nat * determiner) := find_from determiners 0 ts.
 
-(* the table searched from its start: what a fresh parse_until call does at its first position *)
 Definition first_match (ts : list tt) : option determiner :=
-  match find_rot 0 ts with Some (_, d) => Some d | None => None end.
+  match find_first ts with Some (_, d) => Some d | None => None end.
 
 (* `erase_input`: `length` times `input.parse::<TokenTree>()` *)
 Fixpoint erase (n : nat) (ts : list tt) : option (list tt) :=
@@ -213,19 +206,19 @@ Definition check_valid (o : oracle) (k : pkind) (ts : list tt) : answer bool :=
 (* ActionGroup *)
 Record group := mkGroup { g_comb : comb; g_deferred : bool; g_mv : mv }.
 
-Inductive accept_res := Accept (d : determiner) | Continue (off : nat) | AMiss.
+Inductive accept_res := Accept (d : determiner) | Continue | AMiss.
 
 (* the block `{ let possible_group = ..find..; possible_group.map(|g| tokens.is_empty() && allow_empty_parsed
    || g.check_parsed::<T>(tokens)).unwrap_or(false) && { next = possible_group; true } }` *)
-Definition try_accept (o : oracle) (k : pkind) (allow_empty : bool) (off : nat) (acc inp : list tt) : accept_res :=
-  match find_rot off inp with
-  | None => Continue off
-  | Some (i, d) =>
+Definition try_accept (o : oracle) (k : pkind) (allow_empty : bool) (acc inp : list tt) : accept_res :=
+  match find_first inp with
+  | None => Continue
+  | Some (_, d) =>
       if is_nil acc && allow_empty then Accept d
       else if negb (d_validate d) then Accept d
       else match check_valid o k acc with
            | Ans true => Accept d
-           | Ans false => Continue (next_off i)
+           | Ans false => Continue
            | NoAns => AMiss
            end
   end.
@@ -238,25 +231,25 @@ Inductive pu_stop :=
 
 (* the `while !input.is_empty() && !{..}` loop.  A `~` at the head of the input is erased (never copied
    to `acc`) whether or not an operator follows; `deferred` is recomputed at every iteration. *)
-Fixpoint pu_loop (o : oracle) (k : pkind) (allow_empty : bool) (off : nat) (acc inp : list tt) {struct inp} : pu_stop :=
+Fixpoint pu_loop (o : oracle) (k : pkind) (allow_empty : bool) (acc inp : list tt) {struct inp} : pu_stop :=
   match inp with
   | [] => PUEnd acc
   | t :: rest =>
       if is_tilde t then
-        match try_accept o k allow_empty off acc rest with
+        match try_accept o k allow_empty acc rest with
         | Accept d => PUStop acc true d rest
         | AMiss => PUErr EOracleMiss
-        | Continue off' =>
+        | Continue =>
             match rest with
             | [] => PUErr EUnexpectedEnd
-            | x :: rest' => pu_loop o k allow_empty off' (acc ++ [x]) rest'
+            | x :: rest' => pu_loop o k allow_empty (acc ++ [x]) rest'
             end
         end
       else
-        match try_accept o k allow_empty off acc inp with
+        match try_accept o k allow_empty acc inp with
         | Accept d => PUStop acc false d inp
         | AMiss => PUErr EOracleMiss
-        | Continue off' => pu_loop o k allow_empty off' (acc ++ [t]) rest
+        | Continue => pu_loop o k allow_empty (acc ++ [t]) rest
         end
   end.
 
@@ -274,7 +267,7 @@ Definition finish_unit (o : oracle) (k : pkind) (acc : list tt) (next : option g
 Definition comb_is_unwrap (c : comb) : bool := comb_eqb c UNWRAP.
 
 Definition parse_until (o : oracle) (k : pkind) (allow_empty : bool) (inp : list tt) : presult unit_res :=
-  match pu_loop o k allow_empty 0 [] inp with
+  match pu_loop o k allow_empty [] inp with
   | PUErr e => PErr e
   | PUEnd acc => finish_unit o k acc None []
   | PUStop acc deferred d inp' =>
@@ -495,7 +488,7 @@ Definition build (o : oracle) (inp : list tt) : presult (branch * list tt) :=
   end.
 
 (* ------------------------------------------------------------------------------------------------ *)
-(** * Options: `for _ in 0..4 { futures_crate_path? custom_joiner? transpose_results? lazy_branches? }` *)
+(** * Options: `loop { futures_crate_path | custom_joiner | transpose_results | lazy_branches | break }` *)
 
 Record opts := mkOpts {
   o_fcp : option operand;
@@ -553,35 +546,37 @@ Definition opt_payload (o : oracle) (k : optk) (st : opts) (content : list tt) :
       end
   end.
 
-(* one `if input.peek(keywords::k) { .. }` *)
-Definition parse_opt (o : oracle) (k : optk) (st : opts) (inp : list tt) : presult (opts * list tt) :=
+(* `if input.peek(fcp) {..} else if input.peek(custom_joiner) {..} else if .. else if .. else { break }` *)
+Definition which_opt (t : tt) : option optk :=
+  if tmatches (MI (opt_kw OFcp)) t then Some OFcp
+  else if tmatches (MI (opt_kw OJoiner)) t then Some OJoiner
+  else if tmatches (MI (opt_kw OTranspose)) t then Some OTranspose
+  else if tmatches (MI (opt_kw OLazy)) t then Some OLazy
+  else None.
+
+(* `loop { .. }`: options are parsed until the input does not start with an option keyword (/repo commit a60958f;
+   the pinned code made exactly four passes - module Pinned).  Structural: every round consumes two token trees. *)
+Fixpoint opt_loop (o : oracle) (st : opts) (inp : list tt) {struct inp} : presult (opts * list tt) :=
   match inp with
+  | [] => POk (st, [])
   | t :: rest =>
-      if tmatches (MI (opt_kw k)) t then
-        match rest with
-        | TG DParen content :: rest' =>
-            if opt_is_set k st then PErr (EOptionTwice k)
-            else match opt_payload o k st content with
-                 | PErr e => PErr e
-                 | POk st' => POk (st', rest')
-                 end
-        | _ => PErr (EOptionNoParens k)
-        end
-      else POk (st, inp)
-  | [] => POk (st, inp)
+      match which_opt t with
+      | None => POk (st, inp)
+      | Some k =>
+          match rest with
+          | TG DParen content :: rest' =>
+              if opt_is_set k st then PErr (EOptionTwice k)
+              else match opt_payload o k st content with
+                   | PErr e => PErr e
+                   | POk st' => opt_loop o st' rest'
+                   end
+          | _ => PErr (EOptionNoParens k)
+          end
+      end
   end.
 
-Definition opt_seq (o : oracle) (ks : list optk) (st : opts) (inp : list tt) : presult (opts * list tt) :=
-  fold_left (fun acc k => match acc with
-                          | PErr e => PErr e
-                          | POk (st', inp') => parse_opt o k st' inp'
-                          end) ks (POk (st, inp)).
-
-Definition pass_order : list optk := [OFcp; OJoiner; OTranspose; OLazy].
-Definition four_passes : list optk := pass_order ++ pass_order ++ pass_order ++ pass_order.
-
 Definition parse_options (o : oracle) (inp : list tt) : presult (opts * list tt) :=
-  opt_seq o four_passes empty_opts inp.
+  opt_loop o empty_opts inp.
 
 (* ------------------------------------------------------------------------------------------------ *)
 (** * Handlers and the top-level loop *)
@@ -657,3 +652,125 @@ Definition parse (o : oracle) (ts : list tt) : presult input :=
           else POk (mkInput bs h (o_fcp st) (o_joiner st) (o_transpose st) (o_lazy st))
       end
   end.
+
+(* ------------------------------------------------------------------------------------------------ *)
+(** * The two definitions as they were on the PINNED tree (before /repo commits 582ee80 and a60958f)
+
+   Kept for the refutation theorems of proofs/ParseProps.v (regression documentation); nothing above uses them. *)
+Module Pinned.
+
+  (* parse_until kept ONE `group_determiners.cycle()` iterator for the whole call and searched it with
+     `.take(group_count).find(..)`: a search that stops at table index i leaves the iterator at i+1, and the
+     next search starts THERE (wrapping around).  `off` is the index the next search starts at. *)
+  Definition find_rot (off : nat) (ts : list tt) : option (nat * determiner) :=
+    match find_from (skipn off determiners) off ts with
+    | Some r => Some r
+    | None => find_from (firstn off determiners) 0 ts
+    end.
+  Definition next_off (i : nat) : nat := if Nat.eqb (S i) n_determiners then 0 else S i.
+
+  Inductive accept_res_pinned := AcceptP (d : determiner) | ContinueP (off : nat) | AMissP.
+
+  Definition try_accept_pinned (o : oracle) (k : pkind) (allow_empty : bool) (off : nat) (acc inp : list tt)
+    : accept_res_pinned :=
+    match find_rot off inp with
+    | None => ContinueP off
+    | Some (i, d) =>
+        if is_nil acc && allow_empty then AcceptP d
+        else if negb (d_validate d) then AcceptP d
+        else match check_valid o k acc with
+             | Ans true => AcceptP d
+             | Ans false => ContinueP (next_off i)
+             | NoAns => AMissP
+             end
+    end.
+
+  Fixpoint pu_loop_pinned (o : oracle) (k : pkind) (allow_empty : bool) (off : nat) (acc inp : list tt) {struct inp}
+    : pu_stop :=
+    match inp with
+    | [] => PUEnd acc
+    | t :: rest =>
+        if is_tilde t then
+          match try_accept_pinned o k allow_empty off acc rest with
+          | AcceptP d => PUStop acc true d rest
+          | AMissP => PUErr EOracleMiss
+          | ContinueP off' =>
+              match rest with
+              | [] => PUErr EUnexpectedEnd
+              | x :: rest' => pu_loop_pinned o k allow_empty off' (acc ++ [x]) rest'
+              end
+          end
+        else
+          match try_accept_pinned o k allow_empty off acc inp with
+          | AcceptP d => PUStop acc false d inp
+          | AMissP => PUErr EOracleMiss
+          | ContinueP off' => pu_loop_pinned o k allow_empty off' (acc ++ [t]) rest
+          end
+    end.
+
+  (* the pinned parse_until: the pinned loop, then exactly what `parse_until` does at the determiner it stops at *)
+  Definition parse_until_pinned (o : oracle) (k : pkind) (allow_empty : bool) (inp : list tt) : presult unit_res :=
+    match pu_loop_pinned o k allow_empty 0 [] inp with
+    | PUErr e => PErr e
+    | PUEnd acc => finish_unit o k acc None []
+    | PUStop acc deferred d inp' =>
+        match d_comb d with
+        | None =>
+            match erase (d_len d) inp' with
+            | None => PErr EUnexpectedEnd
+            | Some rest => finish_unit o k acc None rest
+            end
+        | Some c =>
+            match erase (d_len d) inp' with
+            | None => PErr EUnexpectedEnd
+            | Some forked =>
+                let wrap := peek_seq wrapper_pat forked in
+                if wrap && comb_is_unwrap c then PErr EWrapAndUnwrap
+                else if wrap && negb (can_be_wrapper c) then PErr ECantBeWrapper
+                else
+                  match (if wrap then erase 3 inp' else Some inp') with
+                  | None => PErr EUnexpectedEnd
+                  | Some inp'' =>
+                      match erase (d_len d) inp'' with
+                      | None => PErr EUnexpectedEnd
+                      | Some rest =>
+                          finish_unit o k acc
+                            (Some (mkGroup c deferred (if wrap then Wrap else if comb_is_unwrap c then Unwrap else NoMove)))
+                            rest
+                      end
+                  end
+            end
+        end
+    end.
+
+  (* `for _ in 0..4 { if peek(fcp) {..} if peek(custom_joiner) {..} if peek(transpose_results) {..} if peek(lazy_branches) {..} }` *)
+  Definition parse_opt (o : oracle) (k : optk) (st : opts) (inp : list tt) : presult (opts * list tt) :=
+    match inp with
+    | t :: rest =>
+        if tmatches (MI (opt_kw k)) t then
+          match rest with
+          | TG DParen content :: rest' =>
+              if opt_is_set k st then PErr (EOptionTwice k)
+              else match opt_payload o k st content with
+                   | PErr e => PErr e
+                   | POk st' => POk (st', rest')
+                   end
+          | _ => PErr (EOptionNoParens k)
+          end
+        else POk (st, inp)
+    | [] => POk (st, inp)
+    end.
+
+  Definition opt_seq (o : oracle) (ks : list optk) (st : opts) (inp : list tt) : presult (opts * list tt) :=
+    fold_left (fun acc k => match acc with
+                            | PErr e => PErr e
+                            | POk (st', inp') => parse_opt o k st' inp'
+                            end) ks (POk (st, inp)).
+
+  Definition pass_order : list optk := [OFcp; OJoiner; OTranspose; OLazy].
+  Definition four_passes : list optk := pass_order ++ pass_order ++ pass_order ++ pass_order.
+
+  Definition parse_options_pinned (o : oracle) (inp : list tt) : presult (opts * list tt) :=
+    opt_seq o four_passes empty_opts inp.
+
+End Pinned.
